@@ -66,6 +66,23 @@ static int op_wl_parse(void) {
     free(sig);
     return 1;
 }
+/* wl_parse_len bytes claimed_len -> ret n_keys reserialized : the parser is told `claimed_len` (any size_t, also >= 2^32) while the
+   buffer holds exactly the 1 + 32*(count+1) bytes that its count byte announces - the parser reads nothing beyond them when it accepts */
+static int op_wl_parse_len(void) {
+    secp256k1_whitelist_signature *sig; int ret; size_t nk, untouched, claimed;
+    NEED(2); NEEDANYHEX(0);
+    claimed = (size_t)strtoull(A(1)->s, NULL, 10);
+    if (A(0)->n < 1 || A(0)->n != 1 + 32 * ((size_t)A(0)->b[0] + 1)) return -1;
+    sig = (secp256k1_whitelist_signature*)malloc(sizeof *sig); memset(sig, 0xAA, sizeof *sig);
+    untouched = secp256k1_whitelist_signature_n_keys(sig);
+    ret = secp256k1_whitelist_signature_parse(CTX, sig, A(0)->b, claimed);
+    nk = secp256k1_whitelist_signature_n_keys(sig);
+    out_int(ret);
+    if (nk == untouched) out_str("u"); else out_int((long long)nk);
+    if (ret) out_wlsig(sig); else out_str("-");
+    free(sig);
+    return 1;
+}
 /* wl_serialize sig_ser buflen -> ret len buffer | parsefail */
 static int op_wl_serialize(void) {
     secp256k1_whitelist_signature *sig; size_t buflen, len; unsigned char *buf; int ret;
@@ -83,7 +100,7 @@ static int op_wl_serialize(void) {
 }
 static int ops_whitelist(const char *op) {
 #define OP(name, call) if (!strcmp(op, name)) return call;
-    OP("wl_sign", op_wl_sign()) OP("wl_verify", op_wl_verify()) OP("wl_parse", op_wl_parse()) OP("wl_serialize", op_wl_serialize())
+    OP("wl_sign", op_wl_sign()) OP("wl_verify", op_wl_verify()) OP("wl_parse", op_wl_parse()) OP("wl_parse_len", op_wl_parse_len()) OP("wl_serialize", op_wl_serialize())
 #undef OP
     return 0;
 }
